@@ -472,8 +472,14 @@ def check_cost_readers(rep, repo):
     gated = stab_gated_functions(repo)
     rep.extra['stability_gated_functions'] = sorted(gated)
     n = 0
+    # only code that can run: functions reachable from the public Solver API (a helper nobody calls any more is not a reader)
+    from ..effects import Effects
+    E_ = Effects(repo)
+    live = set(E_.reachable([m for nm, m in repo.classes.get('Solver', {}).items() if not nm.startswith('_') or nm == '__init__']))
     for f in repo.all_funcs():
         if not f.relpath.startswith(repo.rel('solver')):
+            continue
+        if live and f not in live:
             continue
         parents = {}
         for p in ast.walk(f.node):
